@@ -61,6 +61,7 @@ extern uint64_t vh_lp_committed(uint64_t lp);     /* committed events compared s
 extern int vh_lp_owner(uint64_t lp);
 extern unsigned vh_lp_undone(uint64_t lp);
 extern unsigned long long vh_baton_switches(void);
+extern long long vh_unreleased_messages(void);
 extern uint64_t vh_schedule_signature(void);
 
 /* ---- watchdog support ---- */
